@@ -10,8 +10,10 @@ P = ['C16']
 
 def build(m):
     m.classes['SpanCls'] = {'precedence': INT, 'parse_inner': BOOL, 'parse_group': INT}
+    m.classes.setdefault('Match', {})
     m.classes['ParseToken'] = {'start': INT, 'end': INT, 'parse_start': INT, 'parse_end': INT,
-                               'cls': SPANCLS, 'children': TList(PT), 'string': STR}
+                               'cls': SPANCLS, 'children': TList(PT), 'string': STR,
+                               'match': TRef('Match'), 'fallback_token': SPANCLS}
     m.namespaces[MOD] = {
         'relation': ('func', MOD + ':relation'),
         'eval_tokens': ('func', MOD + ':eval_tokens'),
@@ -158,3 +160,58 @@ def build2(m):
                    body_types={'token_buffer': TList(PT)},
                    loops={0: Loop(invariant=['html._charref == 1'])},
                    prop=['C11']))
+
+
+def build3(m):
+    """make_tokens: the gaps given to the fallback token and the tokens tile [start, end] (C16, C14)."""
+    SPT = TRef('Token')
+    m.classes.setdefault('Token', {'line_number': INT})
+    m.classes['Token'].setdefault('children', TList(SPT))
+    m.namespaces[MOD]['html'] = ('module', 'html')
+    m.namespaces.setdefault('html', {})['unescape'] = ('func', 'stdlib:html.unescape')
+    m.ufunc('html_unescape', [STR], STR)
+    m.add(Contract('stdlib:html.unescape', [('s', STR)], returns=STR, trusted=True, pure=True,
+                   ensures=['result == html_unescape(s)'],
+                   note='A7: html.unescape as an uninterpreted function (identity on strings without a character reference)'))
+    m.methods[('SpanCls', '__call__')] = 'protocol:SpanCls.__call__'
+    m.add(Contract('protocol:SpanCls.__call__', [('self', SPANCLS), ('content', None)], returns=TOpt(SPT), trusted=True,
+                   may_raise=['CustomTokenError'], modifies=['G:INLINE_PHASE'],
+                   ensures=['not is_none(result)', 'is_fresh(result)', 'allocated(some(result))'],
+                   note='span token constructor protocol: cls(match) / fallback_token(text) returns a new token'))
+    m.methods[('ParseToken', 'make')] = MOD + ':ParseToken.make#protocol'
+    m.add(Contract(MOD + ':ParseToken.make#protocol', [('self', PT)], returns=TOpt(SPT), trusted=True,
+                   may_raise=['CustomTokenError'], modifies=['G:INLINE_PHASE'],
+                   note='token construction; its nested make_tokens call is checked in ParseToken.make#nesting'))
+    m.add(Contract(MOD + ':make_tokens#tiling',
+                   [('tokens', TList(PT)), ('start', INT), ('end', INT), ('string', STR), ('fallback_token', SPANCLS)],
+                   returns=TList(SPT),
+                   requires=['0 <= start', 'start <= end', 'end <= len(string)',
+                             'forall(lambda i: PT_OK(tokens[i]) and start <= tokens[i].start and tokens[i].end <= end, 0, len(tokens))',
+                             'forall(lambda i: tokens[i].end <= tokens[i + 1].start, 0, len(tokens) - 1)'],
+                   ensures=[('g_cover == end', ['C16', 'C14'])],
+                   ghost_init={'g_cover': (INT, 'start')},
+                   ghost_after={
+                       r're:t = fallback_token\(html\.unescape\(string\[.*\]\)\)': [
+                           ('__assert__', ('_slice_lo == g_cover and _slice_hi == token.start and g_cover < _slice_hi', ['C16', 'C14'])),
+                           ('g_cover', 'token.start')],
+                       't = token.make()': [
+                           ('__assert__', ('g_cover == token.start', ['C16', 'C14'])),
+                           ('g_cover', 'token.end')],
+                       r're:result\.append\(fallback_token\(html\.unescape\(string\[.*\]\)\)\)': [
+                           ('__assert__', ('_slice_lo == g_cover and _slice_hi == end and g_cover < end', ['C16', 'C14'])),
+                           ('g_cover', 'end')],
+                   },
+                   modifies=['G:INLINE_PHASE'], allow_exc=['CustomTokenError'],
+                   body_types={'result': TList(SPT)},
+                   loops={0: Loop(invariant=[
+                       'prev_end == (start if _k0 == 0 else tokens[_k0 - 1].end)', 'g_cover == prev_end',
+                       'start <= prev_end', 'prev_end <= end'])},
+                   prop=['C16', 'C14']))
+    m.add(Contract(MOD + ':ParseToken.make#nesting', [('self', PT)], returns=TOpt(SPT),
+                   requires=['PT_OK(self)', 'KIDS_OK(self)', 'self.parse_end <= len(self.string)'],
+                   call_asserts={MOD + ':make_tokens': [
+                       # the children (and the raw text between them) tile exactly the parse group
+                       ('start == self.parse_start and end == self.parse_end and same(tokens, self.children) '
+                        'and string == self.string', 'C16')]},
+                   modifies=['G:INLINE_PHASE', 'N:Token.children'], allow_exc=['CustomTokenError'],
+                   prop=['C16']))
